@@ -75,6 +75,7 @@ fn dispatch(state: &mut modelops::State, req: &J) -> J {
     "invoke" => guarded(|| modelops::op_invoke(state, req)),
     "drop" => guarded(|| modelops::op_drop(state, req)),
     "probe" => guarded(|| modelops::op_probe(req)),
+    "mhistory" => guarded(|| modelops::op_mhistory(req)),
     "dtable" => guarded(|| modelops::op_dtable(req)),
     "threads" => guarded(|| modelops::op_threads(state, req)),
     "ws" => guarded(|| wsops::op_ws(state, req)),
